@@ -5,6 +5,7 @@ import (
 	"errors"
 	"fmt"
 	"strings"
+	"unicode/utf8"
 
 	"github.com/wollac/iota-crypto-demo/pkg/bech32/internal/base32"
 )
@@ -67,6 +68,12 @@ func Encode(hrp string, src []byte) (string, error) {
 func Decode(s string) (string, []byte, error) {
 	if len(s) > maxStringLength {
 		return "", nil, &SyntaxError{fmt.Errorf("%w: maximum length exceeded", ErrInvalidLength), maxStringLength}
+	}
+	// a Bech32 string is US-ASCII; reject other bytes before any (Unicode-aware) case folding
+	for i := 0; i < len(s); i++ {
+		if s[i] >= utf8.RuneSelf {
+			return "", nil, &SyntaxError{fmt.Errorf("%w: not US-ASCII character", ErrInvalidCharacter), i}
+		}
 	}
 	// validate the separator
 	hrpLen := strings.LastIndex(s, string(separator))
